@@ -182,7 +182,7 @@ fn c26_fractional(rep: &mut Report, cat: &Arc<QCatalog>, slip: usize) {
 }
 
 pub fn run_c26(ctx: &Ctx, rep: &mut Report) {
-    let n = ctx.cases(3_000, 120_000);
+    let n = ctx.cases(3_000, 40_000);
     let (_reference, cat) = rrl_zone();
     let cat = Arc::new(cat);
     for case in ctx.case_range(n) {
